@@ -746,8 +746,122 @@ def _enclosing_branch(node, stop):
 
 
 # ---------------------------------------------------------------------------
+def _regex_numeric_groups(pattern):
+    """[(group number, problem or None)] for the capturing groups of a regular expression that consist of a repeated digit
+    class: a numeric component must be the WHOLE run of digits - a lazy quantifier (\\d+?) or a bounded one that is
+    followed by something that can itself match a digit captures only a prefix of the number."""
+    import re
+    try:
+        import re._parser as sre_parse
+        import re._constants as sre_c
+    except ImportError:          # Python < 3.11
+        import sre_parse
+        import sre_constants as sre_c
+    tree = sre_parse.parse(pattern)
+    items = list(tree)
+    out = []
+
+    def can_match_digit(op, av):
+        name = str(op)
+        if name == 'ANY':
+            return True
+        if name == 'IN':
+            return any(str(o) == 'CATEGORY' and 'DIGIT' in str(a) and 'NOT' not in str(a) or str(o) == 'RANGE' and a[0] <= ord('5') <= a[1]
+                       or str(o) == 'LITERAL' and chr(a).isdigit() for (o, a) in av)
+        if name == 'LITERAL':
+            return chr(av).isdigit()
+        if name in ('MAX_REPEAT', 'MIN_REPEAT'):
+            return any(can_match_digit(o, a) for (o, a) in av[2])
+        if name == 'SUBPATTERN':
+            return any(can_match_digit(o, a) for (o, a) in av[3][:1]) or (not list(av[3]))
+        if name == 'AT':
+            return False
+        return True
+
+    for i, (op, av) in enumerate(items):
+        if str(op) != 'SUBPATTERN' or av[0] is None:
+            continue
+        inner = list(av[3])
+        if len(inner) != 1 or str(inner[0][0]) not in ('MAX_REPEAT', 'MIN_REPEAT'):
+            continue
+        rop, (lo, hi, body) = inner[0][0], inner[0][1]
+        body = list(body)
+        if not (len(body) == 1 and str(body[0][0]) == 'IN' and any(str(o) == 'CATEGORY' and 'DIGIT' in str(a) and 'NOT' not in str(a)
+                                                                    for (o, a) in body[0][1])):
+            continue
+        nxt = items[i + 1] if i + 1 < len(items) else None
+        follows_digit = nxt is not None and can_match_digit(nxt[0], nxt[1])
+        prob = None
+        if str(rop) == 'MIN_REPEAT' and follows_digit:
+            prob = 'is lazy and followed by a pattern that can match a digit: it captures only the first %d digit%s of the number' % (
+                lo, '' if lo == 1 else 's')
+        elif str(rop) == 'MAX_REPEAT' and hi != sre_c.MAXREPEAT and follows_digit:
+            prob = 'takes at most %d digits and is followed by a pattern that can match a digit: longer numbers are cut' % hi
+        out.append((av[0], prob))
+    return out
+
+
+def version_string(ctx, rule):
+    """The string form of a version ('0.2.10', '0.2.10.dev3+g..') is turned into (major, minor, patch) by taking the
+    integer value of each of the first three dot-separated fields as a whole.  Accepted: int(<parts>[k]) on a split('.') of
+    the string; or groups of a regular expression that are complete digit runs (checked on the regex syntax tree)."""
+    P = ctx.P
+    # positive / negative control of the regex rule (it has no instance on a tree that splits the string)
+    bad = _regex_numeric_groups(r'^(\d+)\.(\d+)\.(\d+?)(.*)$')
+    good = _regex_numeric_groups(r'^(\d+)\.(\d+)\.(\d+)(.*)$')
+    if not (len(bad) == 3 and bad[2][1] and not bad[0][1] and all(p_ is None for (_g, p_) in good) and len(good) == 3):
+        raise AnalysisError('control of the version-string regex rule failed')
+    cls = P.cls('version.SeismicZfpVersion')
+    init = cls.methods['__init__']
+    mod = init.module
+    uses_re = [c for c in ast.walk(init.node) if isinstance(c, ast.Call) and isinstance(c.func, ast.Attribute) and
+               c.func.attr in ('match', 'fullmatch', 'search')]
+    if uses_re:
+        for c in uses_re:
+            pat = None
+            recv = c.func.value
+            if isinstance(recv, ast.Name) and recv.id in mod.const_nodes:
+                cn = mod.const_nodes[recv.id]
+                if isinstance(cn, ast.Call) and U(cn.func) in ('re.compile', 'compile') and cn.args and isinstance(cn.args[0], ast.Constant):
+                    pat = cn.args[0].value
+            elif U(recv) == 're' and c.args and isinstance(c.args[0], ast.Constant):
+                pat = c.args[0].value
+            if not isinstance(pat, str):
+                raise AnalysisError('SeismicZfpVersion.__init__: the pattern of `%s` is not a literal' % U(c)[:50])
+            groups = _regex_numeric_groups(pat)
+            if len(groups) < 3:
+                raise AnalysisError('SeismicZfpVersion.__init__: pattern %r has %d numeric groups, expected 3' % (pat, len(groups)))
+            for (g, prob) in groups:
+                if prob:
+                    ctx.fail(rule, init, enclosing_stmt(c), 'version strings are parsed with %r: group %d %s - e.g. patch 10 is read as 1, '
+                             'the file is stamped with another version and the version gates of the reader pick the wrong layout' % (
+                                 pat, g, prob), line=c.lineno, key_extra='group%d' % g)
+                else:
+                    ctx.ok(rule, init, 'regex group %d' % g, 'a complete run of digits')
+        return
+    # split('.') form: int(parts[k]) for k = 0, 1, 2 of one split of the argument
+    comps = {}
+    for a in ast.walk(init.node):
+        if isinstance(a, ast.Assign) and U(a.targets[0]) in ('self.major', 'self.minor', 'self.patch') and \
+                isinstance(a.value, ast.Call) and U(a.value.func) == 'int' and a.value.args and isinstance(a.value.args[0], ast.Subscript) and \
+                isinstance(a.value.args[0].slice, ast.Constant):
+            comps[U(a.targets[0])] = (U(a.value.args[0].value), a.value.args[0].slice.value)
+    if len(comps) == 3:
+        srcs = {v[0] for v in comps.values()}
+        idx = [comps[k][1] for k in ('self.major', 'self.minor', 'self.patch')]
+        src_def = [d for d in ast.walk(init.node) if isinstance(d, ast.Assign) and U(d.targets[0]) in srcs]
+        if len(srcs) == 1 and idx == [0, 1, 2] and src_def and ".split('.')" in U(src_def[0].value).replace('"', "'"):
+            ctx.ok(rule, init, src_def[0], 'major, minor, patch = int() of the first three dot-separated fields')
+            return
+        ctx.fail(rule, init, (src_def or [init.node.body[0]])[0], 'major / minor / patch are not int() of fields 0, 1, 2 of one split of '
+                 'the version string (%s)' % comps)
+        return
+    raise AnalysisError('SeismicZfpVersion.__init__: how the version string is split was not recognised')
+
+
 def check_version(ctx, rule):
     P, G = ctx.P, ctx.G
+    version_string(ctx, rule)
     cls = P.cls('version.SeismicZfpVersion')
     enc = cls.methods.get('to_encoding')
     init = cls.methods.get('__init__')
